@@ -53,6 +53,8 @@ class CostSpec(cost_spec.CostSpec):
 
     @raw_number_per.setter
     def __raw_number_per(self, value: Optional[NumberExpr]) -> None:
+        if value is not None and value is self.raw_number_per:
+            return  # cost.raw_number_per *= 2 stores the node, modified in place, back into its own slot
         if value is not None:
             internal.check_reusable([value])
         self._merge_number_and_currency()
@@ -102,6 +104,8 @@ class CostSpec(cost_spec.CostSpec):
 
     @raw_number_total.setter
     def __raw_number_total(self, value: Optional[NumberExpr]) -> None:
+        if value is not None and value is self.raw_number_total:
+            return
         if value is not None:
             internal.check_reusable([value])
         self._merge_number_and_currency()
@@ -148,6 +152,8 @@ class CostSpec(cost_spec.CostSpec):
 
     @raw_currency.setter
     def __raw_currency(self, value: Optional[Currency]) -> None:
+        if value is not None and value is self.raw_currency:
+            return
         if value is not None:
             internal.check_reusable([value])
         self._merge_number_and_currency()
